@@ -96,6 +96,20 @@ def slice(ctx: fw.Ctx) -> fw.Outcome:
             out.violation("chart-" + fw.h(base.text), f"well-formed chart raised {x0}", common.chart_replay(base.text), observed=x0, promised="parses")
             continue
         d0, d1 = gen.parse_dump(x0), gen.parse_dump(x1)
+        # conservation on the chart as generated (every body line canonical): each line of [SyncTrack] / [Events], and each S / E line of
+        # an instrument section, is exactly one datum of its kind — nothing silently dropped, nothing doubled — and nothing is reported
+        secs0 = dict(base.sections)
+        n_sync, n_ev = len(secs0.get("SyncTrack", [])), len(secs0.get("Events", []))
+        got_sync = len(d0["bpm"]) + len(d0["ts"]) + len(d0["anchor"])
+        got_ev = len(d0["TX"]) + len(d0["SE"]) + len(d0["LY"])
+        want_se = sum(len(t.phrases) + len(t.tevents) for t in src.tracks)
+        got_se = sum(len(v.get("sps", [])) + len(v.get("tes", [])) for v in d0["tracks"].values())
+        dup_tracks = len({(t.inst, t.diff) for t in src.tracks}) != len(src.tracks)
+        if (got_sync, got_ev) != (n_sync, n_ev) or (not dup_tracks and got_se != want_se) or d0["unparsable"] != 0:
+            out.violation("conserve-" + fw.h(base.text), f"a chart of canonical lines only: [SyncTrack] has {n_sync} lines and yields {got_sync} events, [Events] {n_ev} lines and {got_ev} events, "
+                          f"instrument sections {want_se} S / E lines and {got_se} events, {d0['unparsable']} lines reported unparsable",
+                          {**common.chart_replay(base.text), "conserve": [n_sync, n_ev, want_se]}, observed=[got_sync, got_ev, got_se, d0["unparsable"]], promised=[n_sync, n_ev, want_se, 0])
+            continue
         if x1.startswith("E ") or x1.split("|W ")[0] != x0.split("|W ")[0]:
             p_, q_ = fw.first_diff(x0, x1)
             out.violation("local-" + fw.h(rp), f"inserting {ins} unparsable lines changed parsed events: {p_!r} vs {q_!r}", rp, observed=q_, promised=p_)
@@ -111,8 +125,46 @@ def slice(ctx: fw.Ctx) -> fw.Outcome:
                                   f"{sum(1 for m in msgs if g in m)} warnings", {**rp, "line": g, "times": inserted.count(g)},
                                   observed=[m[:80] for m in msgs[:3]], promised="one warning naming the line per insertion")
                     break
+    long_sections(ctx, out)
     disjoint(ctx, out)
     return out
+
+
+def long_sections(ctx, out):
+    """sections longer than the sizes at which batching, buffering and "sane maximum" code changes gear (2^14, 2^15, 2^16 lines): a few
+    unparsable lines inserted at the start, around each such boundary and at the end change no event and are each reported once"""
+    ins_, dif_ = impl.enums()
+    for n in ([16500, 33000] if ctx.tier == "quick" else [16500, 33000, 66000, 140000]):
+        body = [f"  {3 * k} = N {k % 5} 0" for k in range(n)]
+        for k in range(0, n, 997):
+            body.insert(k, f"  {3 * k} = S 2 1")
+        head = "[Song]\n{\n  Resolution = 192\n}\n[SyncTrack]\n{\n  0 = TS 4\n  0 = B 120000\n}\n[Events]\n{\n}\n[ExpertSingle]\n{\n"
+        base = head + "\n".join(body) + "\n}\n"
+        spots = sorted({0, 1, len(body) - 1} | {b + d for b in (2**14, 2**15, 2**16, 2**17) for d in (-2, -1, 0, 1, 2) if b + d < len(body)})
+        bad = body[:]
+        for j, sp in enumerate(reversed(spots)):
+            bad.insert(sp, f"garbage line {j}")
+        rp = {"op": "long", "n": n}
+        out.case("Lg" + fw.h(rp), True, {"lines": len(bad)}, tags=["long-section"])
+        res = []
+        for text in (base, head + "\n".join(bad) + "\n}\n"):
+            c, e, w = impl.parse(text)
+            if c is None:
+                res.append((impl.err_name(e), 0, 0))
+                continue
+            tr = c.instrument_tracks[ins_[0]][dif_[3]]
+            unp = sum(1 for name, msg in w if name == "chartparse.track" and msg.startswith("unparsable line"))
+            res.append(([(e_.tick, "".join(str(b) for b in e_.note.value)) for e_ in tr.note_events], len(tr.star_power_events), unp))
+        (n0, s0, u0), (n1, s1, u1) = res
+        want_notes = [(3 * k, "".join("1" if l == k % 5 else "0" for l in range(5))) for k in range(n)]
+        if n0 != want_notes or u0 != 0:
+            k = next((i for i, (a, b) in enumerate(zip(n0, want_notes)) if a != b), min(len(n0), len(want_notes))) if isinstance(n0, list) else 0
+            out.violation("long-" + fw.h(rp), f"a section of {len(body)} canonical lines: {len(n0) if isinstance(n0, list) else n0} note events for {n} N lines "
+                          f"(first difference at #{k}), {u0} lines reported", rp, observed=[len(n0) if isinstance(n0, list) else n0, u0], promised=[n, 0])
+        elif n1 != n0 or s1 != s0 or u1 != len(spots):
+            out.violation("long-" + fw.h(rp), f"{len(spots)} unparsable lines inserted into a section of {len(body)} lines (at its start, end and around 2^14, 2^15 …): "
+                          f"{len(n1) if isinstance(n1, list) else n1} note events (before: {len(n0)}), {s1} phrases (before: {s0}), {u1} warnings", rp,
+                          observed=[len(n1) if isinstance(n1, list) else n1, s1, u1], promised=[len(n0), s0, len(spots)])
 
 
 def disjoint(ctx, out):
@@ -140,6 +192,20 @@ def disjoint(ctx, out):
 
 
 def replay(ctx, data):
+    if data.get("op") == "long":
+        o = fw.Outcome("")
+
+        class _C:  # noqa: N801
+            tier = "thorough" if data["n"] > 33000 else "quick"
+        long_sections(_C, o)
+        return any(v["replay"].get("n") == data["n"] for v in o.violations), str([v["what"][:120] for v in o.violations][:2])
+    if data.get("conserve"):
+        d = gen.parse_dump(impl.run_chart(data["text"]))
+        if d["err"] is not None:
+            return True, d["err"]
+        got = [len(d["bpm"]) + len(d["ts"]) + len(d["anchor"]), len(d["TX"]) + len(d["SE"]) + len(d["LY"]),
+               sum(len(v.get("sps", [])) + len(v.get("tes", [])) for v in d["tracks"].values())]
+        return got != list(data["conserve"]) or d["unparsable"] != 0, str(got + [d["unparsable"]])
     if data["op"] == "garbage":
         x0, x1 = impl.run_chart(data["base"]), impl.run_chart(data["with_garbage"])
         if x1.startswith("E ") or x1.split("|W ")[0] != x0.split("|W ")[0]:
